@@ -8,9 +8,11 @@ git -C /repo worktree add -q --detach "$WT" HEAD || exit 2
 cleanup() { git -C /repo worktree remove --force "$WT" >/dev/null 2>&1; }
 trap cleanup EXIT
 cd "$WT"
-PYTHONPATH="$WT" timeout 300 /venv/bin/python "$SRC/demo.py" >/tmp/vs_clean.log 2>&1; C=$?
-git apply "$SRC/patch.diff" || { echo "patch does not apply"; exit 2; }
-PYTHONPATH="$WT" timeout 300 /venv/bin/python "$SRC/demo.py" >/tmp/vs_mut.log 2>&1; M=$?
+# demos may locate the library relative to their own position (<worktree>/_mut/mN/demo.py): run a copy from inside $WT
+mkdir -p "$WT/_mut/m0" && cp "$SRC/demo.py" "$WT/_mut/m0/demo.py"
+PYTHONPATH="$WT" timeout 300 /venv/bin/python "$WT/_mut/m0/demo.py" >/tmp/vs_clean.log 2>&1; C=$?
+git apply "$SRC/patch.diff" || git apply -3 "$SRC/patch.diff" || { echo "patch does not apply"; exit 2; }
+PYTHONPATH="$WT" timeout 300 /venv/bin/python "$WT/_mut/m0/demo.py" >/tmp/vs_mut.log 2>&1; M=$?
 unshare -n sh -c "ip link set lo up; PYTHONPATH=$WT timeout 1200 /venv/bin/python -m pytest -q -p no:cacheprovider --timeout=900 -x" >/tmp/vs_tests.log 2>&1; T=$?
 SUMMARY=$(tail -1 /tmp/vs_tests.log)
 echo "demo clean exit=$C  demo mutated exit=$M  tests exit=$T ($SUMMARY)"
